@@ -269,6 +269,8 @@ def go_test(pkgs, pkgdir, run, env=None, timeout=1200, race=False, tmp=None, cov
         raise Infra("go test timeout: %s %s" % (pkgdir, run))
     if p.returncode != 0:
         o = p.stdout
+        if re.search(r"^panic: VF-PRODUCT:", o, re.M):      # a stub was misused by the code under test (nil connection, ...)
+            raise ProductCrash(o)
         if re.search(r"^panic: vf:", o, re.M):           # the harness's own assertions all start with "vf:"
             sys.stderr.write(o[-3000:])
             raise Infra("the harness panicked (not the code under test) in %s -run %s" % (pkgdir, run))
